@@ -13,7 +13,9 @@
 (* no-code and of a custom-code error; and listings whose backend yields    *)
 (* 1 or 2 items and THEN the error, with page sizes 1, 2 and the default;   *)
 (* and size classes: messages of 1900..6000 bytes, details of 1..90 digests; *)
-(* and writer carriers: the backend's BlobWriter fails (kind WRITER).       *)
+(* and writer carriers: the backend's BlobWriter fails (kind WRITER);       *)
+(* HTTP wrappers made from a response (resp) besides the nil-response form; *)
+(* and a non-conforming origin registry (kind ORIGIN).                      *)
 (* A behaviour is one case: Init picks it, each step is one hop.           *)
 (*                                                                         *)
 (* Two modes, both swept inside one TLC run (Init chooses):                *)
@@ -32,11 +34,11 @@ MCStdMsg == [c \in StdCodes |-> IF c \in SelfNamed THEN <<C(c)>> ELSE <<M(c)>>]
 \* "-" : no OCI error at all; the lower/mixed-case codes are custom codes (own status or 500)
 Codes == StdCodes \cup {"CUSTOM_CODE", "", "-", "denied", "Blob_Unknown", "blob_upload_invalid"}
 Shapes == {"plain", "code", "status", "both", "dup", "empty"}
-Wraps == {"bare", "fmt", "fmt0", "http", "fmthttp416", "http404http416"}
+Wraps == {"bare", "fmt", "fmt0", "http", "httpR", "fmthttp416", "http404http416"}
 
 \* the status that ends up on the wire for a leaf of code c under the given wrapping
 FinalStatus(c, w, s) == IF c \in StdCodes THEN Table[c]
-                        ELSE CASE w = "http" -> s [] w = "fmthttp416" -> 416
+                        ELSE CASE w \in {"http", "httpR"} -> s [] w = "fmthttp416" -> 416
                                [] w = "http404http416" -> 404 [] OTHER -> 500
 CodeTok(c) == C(IF c \in {"", "-"} THEN "UNKNOWN" ELSE c)
 ShapeMsg(sh, c, fs) ==
@@ -57,12 +59,13 @@ Wrapped(x, w, s) ==
     [] w = "fmt" -> Fmt(<<B("b2")>>, <<x>>)
     [] w = "fmt0" -> Fmt(<<>>, <<x>>)
     [] w = "http" -> Http(s, <<x>>)
+    [] w = "httpR" -> HttpR(s, <<x>>)      \* the same wrapper made from a response
     [] w = "fmthttp416" -> Fmt(<<B("b2")>>, <<Http(416, <<x>>)>>)
     [] w = "http404http416" -> Http(404, <<Http(416, <<x>>)>>)
 
-WS == {<<w, s>> : w \in Wraps \ {"http"}, s \in {0}} \cup {<<"http", s>> : s \in Statuses}
+WS == {<<w, s>> : w \in Wraps \ {"http", "httpR"}, s \in {0}} \cup {<<w, s>> : w \in {"http", "httpR"}, s \in Statuses}
 Domain == UNION {{Wrapped(x, ws[1], ws[2]) : x \in Leaves(c, FinalStatus(c, ws[1], ws[2]))} : c \in Codes, ws \in WS}
-          \cup {Http(s, <<>>) : s \in Statuses}
+          \cup {Http(s, <<>>) : s \in Statuses} \cup {HttpR(s, <<>>) : s \in Statuses}
 
 \* Status sweep: EVERY own status (400..599 in the configs) around a no-code and a custom-code
 \* error, so that a status-specific rule anywhere (client HEAD mapping, httpError.Is, table)
@@ -99,6 +102,15 @@ WriterLeaves == {Std(c) : c \in {"DENIED", "BLOB_UPLOAD_UNKNOWN", "RANGE_INVALID
 WriterDomain == WriterLeaves \cup {Fmt(<<B("b2")>>, <<x>>) : x \in WriterLeaves}
                 \cup {Http(s, <<x>>) : x \in WriterLeaves, s \in {400, 413, 416, 507}}
 
+\* A NON-CONFORMING ORIGIN (kind "ORIGIN"): a registry that is not ociserver answers with a status
+\* that disagrees with the table for the code it sends.  What ociclient makes of that answer is the
+\* tree HttpR(status, New(code, message, detail)); relayed through ociserver-over-ociclient hops the
+\* tabled code must be answered with its tabled status at every hop, the rest preserved.
+OriginPairs == {<<404, "DENIED">>, <<403, "NAME_UNKNOWN">>, <<401, "MANIFEST_UNKNOWN">>, <<400, "BLOB_UPLOAD_INVALID">>,
+                <<418, "TOOMANYREQUESTS">>, <<500, "UNAUTHORIZED">>, <<416, "BLOB_UNKNOWN">>, <<503, "RANGE_INVALID">>,
+                <<404, "NAME_UNKNOWN">>, <<418, "CUSTOM_CODE">>, <<409, "denied">>, <<404, "UNKNOWN">>}
+OriginDomain == {HttpR(p[1], <<New(p[2], m, d)>>) : p \in OriginPairs, m \in {<<B("b1")>>, <<E>>}, d \in {"none", "d1"}}
+
 VARIABLES mode, t0, kind, k, cur, nitems, page
 vars == <<mode, t0, kind, k, cur, nitems, page>>
 Impl416 == mode = "impl"
@@ -108,6 +120,7 @@ Init == /\ mode \in Modes /\ k = 0
         /\ \/ t0 \in FullDomain /\ kind \in Kinds /\ nitems = 0 /\ page = 0
            \/ t0 \in ListTrees /\ kind = "LIST" /\ \E sh \in ListShapes : nitems = sh[1] /\ page = sh[2]
            \/ t0 \in WriterDomain /\ kind = "WRITER" /\ nitems = 0 /\ page = 0
+           \/ t0 \in OriginDomain /\ kind = "ORIGIN" /\ nitems = 0 /\ page = 0
         /\ cur = t0
 Next == k < MaxHops /\ k' = k + 1 /\ cur' = Hop(cur, kind, TrimExact) /\ UNCHANGED <<mode, t0, kind, nitems, page>>
 Spec == Init /\ [][Next]_vars
